@@ -15,17 +15,18 @@ Record leaf := mkLeaf { lname : string; loff : Z; lwidth : Z; lkind : kind; lbe 
                         lcount : Z; lstride : Z }.
 
 (* A scalar cell: w bytes at offset o, signed?, big-endian? *)
-Record cell := mkCell { coff : nat; cw : nat; csigned : bool; cbe : bool }.
+Record cell := mkCell { coffz : Z; cw : nat; csigned : bool; cbe : bool }.
+Definition coff (c : cell) : nat := Z.to_nat (coffz c).
 
 Definition cell_eqb (a b : cell) : bool :=
-  Nat.eqb (coff a) (coff b) && Nat.eqb (cw a) (cw b) && Bool.eqb (csigned a) (csigned b)
+  Z.eqb (coffz a) (coffz b) && Nat.eqb (cw a) (cw b) && Bool.eqb (csigned a) (csigned b)
   && Bool.eqb (cbe a) (cbe b).
 
 Lemma cell_eqb_eq a b : cell_eqb a b = true -> a = b.
 Proof.
   destruct a, b; unfold cell_eqb; simpl; intros H.
   repeat (apply andb_prop in H; destruct H as [H ?]).
-  apply Nat.eqb_eq in H. apply Nat.eqb_eq in H2. apply eqb_prop in H1. apply eqb_prop in H0.
+  apply Z.eqb_eq in H. apply Nat.eqb_eq in H2. apply eqb_prop in H1. apply eqb_prop in H0.
   subst. reflexivity.
 Qed.
 
@@ -36,9 +37,9 @@ Fixpoint seqZ (start : Z) (n : nat) : list Z :=
 Definition elem_cells (l : leaf) (k : Z) : list cell :=
   let o := loff l + k * lstride l in
   match lkind l with
-  | KU => [mkCell (Z.to_nat o) (Z.to_nat (lwidth l)) false (lbe l)]
-  | KI => [mkCell (Z.to_nat o) (Z.to_nat (lwidth l)) true (lbe l)]
-  | KS | KF => map (fun j => mkCell (Z.to_nat (o + j)) 1 false true) (seqZ 0 (Z.to_nat (lwidth l)))
+  | KU => [mkCell o (Z.to_nat (lwidth l)) false (lbe l || (lwidth l =? 1))]
+  | KI => [mkCell o (Z.to_nat (lwidth l)) true (lbe l || (lwidth l =? 1))]
+  | KS | KF => map (fun j => mkCell (o + j) 1 false true) (seqZ 0 (Z.to_nat (lwidth l)))
   end.
 
 Definition leaf_cells (l : leaf) : list cell :=
@@ -57,9 +58,27 @@ Fixpoint write_cells (cs : list cell) (vs : list Z) (r : list Z) : list Z :=
   | _, _ => r
   end.
 
-Definition cell_in (size : nat) (c : cell) : bool := (0 <? cw c)%nat && (coff c + cw c <=? size)%nat.
+(* the checks are computed in Z (binary), the semantics uses nat positions *)
+Definition cell_in (size : nat) (c : cell) : bool :=
+  (0 <? cw c)%nat && (0 <=? coffz c) && (coffz c + Z.of_nat (cw c) <=? Z.of_nat size).
 Definition cells_disj (a b : cell) : bool :=
-  (coff a + cw a <=? coff b)%nat || (coff b + cw b <=? coff a)%nat.
+  (0 <=? coffz a) && (0 <=? coffz b) &&
+  ((coffz a + Z.of_nat (cw a) <=? coffz b) || (coffz b + Z.of_nat (cw b) <=? coffz a)).
+
+Lemma cell_in_spec size c : cell_in size c = true -> (0 < cw c)%nat /\ (coff c + cw c <= size)%nat.
+Proof.
+  unfold cell_in, coff. intros H. apply andb_prop in H. destruct H as [H H3].
+  apply andb_prop in H. destruct H as [H1 H2].
+  apply Nat.ltb_lt in H1. apply Z.leb_le in H2. apply Z.leb_le in H3. split; lia.
+Qed.
+
+Lemma cells_disj_spec a b : cells_disj a b = true ->
+  (coff a + cw a <= coff b)%nat \/ (coff b + cw b <= coff a)%nat.
+Proof.
+  unfold cells_disj, coff. intros H. apply andb_prop in H. destruct H as [H H3].
+  apply andb_prop in H. destruct H as [H1 H2]. apply Z.leb_le in H1. apply Z.leb_le in H2.
+  apply orb_prop in H3. destruct H3 as [H3|H3]; apply Z.leb_le in H3; [left|right]; lia.
+Qed.
 
 Fixpoint pairwise_disj (cs : list cell) : bool :=
   match cs with
@@ -82,7 +101,7 @@ Proof.
   induction cs as [|c cs IH]; intros vs r H; [reflexivity|].
   destruct vs as [|v vs]; [reflexivity|]. cbn [write_cells].
   cbn [forallb] in H. apply andb_prop in H. destruct H as [Hc Hcs].
-  unfold cell_in in Hc. apply andb_prop in Hc. destruct Hc as [_ Hc]. apply Nat.leb_le in Hc.
+  apply cell_in_spec in Hc. destruct Hc as [_ Hc].
   rewrite IH; rewrite write_cell_length by assumption; auto.
 Qed.
 
@@ -99,7 +118,7 @@ Lemma read_write_other c d v r : (coff d + cw d <= length r)%nat -> cells_disj c
 Proof.
   intros Hb Hd. unfold read_cell, write_cell. f_equal.
   apply slice_splice_other; rewrite cenc_length; [assumption|].
-  unfold cells_disj in Hd. apply orb_prop in Hd. destruct Hd as [Hd|Hd]; apply Nat.leb_le in Hd; lia.
+  apply cells_disj_spec in Hd. lia.
 Qed.
 
 Lemma read_write_cells_other c cs : forall vs r,
@@ -110,7 +129,7 @@ Proof.
   destruct vs as [|v vs]; [reflexivity|]. cbn [write_cells].
   cbn [forallb] in *. apply andb_prop in Hin. destruct Hin as [Hdin Hin].
   apply andb_prop in Hd. destruct Hd as [Hd1 Hd].
-  unfold cell_in in Hdin. apply andb_prop in Hdin. destruct Hdin as [_ Hdin]. apply Nat.leb_le in Hdin.
+  apply cell_in_spec in Hdin. destruct Hdin as [_ Hdin].
   rewrite IH; [|rewrite write_cell_length by assumption; assumption|assumption].
   apply read_write_other; assumption.
 Qed.
@@ -127,8 +146,7 @@ Proof.
     apply andb_prop in Hwf. destruct Hwf as [Hin Hpd].
     apply andb_prop in Hin. destruct Hin as [Hc Hin].
     apply andb_prop in Hpd. destruct Hpd as [Hd Hpd].
-    unfold cell_in in Hc. apply andb_prop in Hc. destruct Hc as [Hw Hb].
-    apply Nat.ltb_lt in Hw. apply Nat.leb_le in Hb.
+    apply cell_in_spec in Hc. destruct Hc as [Hw Hb].
     f_equal.
     + rewrite read_write_cells_other;
         [|rewrite write_cell_length by assumption; assumption|assumption].
@@ -205,3 +223,7 @@ Proof.
       * rewrite Forall_forall in Hv. apply Hv. eapply nth_error_In; eassumption.
     + rewrite nth_error_map, Hi. reflexivity.
 Qed.
+
+(* shifting a cell list (a sub-layout placed at a byte offset inside a larger region) *)
+Definition shift_cells (d : nat) (cs : list cell) : list cell :=
+  map (fun c => mkCell (coffz c + Z.of_nat d) (cw c) (csigned c) (cbe c)) cs.
